@@ -105,6 +105,11 @@ Proof.
       rewrite Ef, (Hnm n Hn) in Hu. discriminate Hu.
 Qed.
 
+(* the scraped fact the proofs below depend on: the source of deallocall contains the walk that
+   clears the used marks (repair 9ef0717).  With the walk removed Gen.v says false and this fails. *)
+Fact deallocall_policy : DEALLOCALL_CLEARS_MARKS = true.
+Proof. reflexivity. Qed.
+
 (* ---------- HeapAllocatorT:deallocall: the walk that clears the marks ends within the fuel and
    leaves no mark behind ---------- *)
 Lemma clear_marks_ok he : forall chunks s m fuel,
@@ -290,7 +295,7 @@ Proof.
           exact (sf_two c _ _ _ _ _ _ _ _ _ Hi Hi' Hfr').
   - inversion Hst; subst.
     assert (Hda : exists s1, hp_deallocall c s = HOk s1 /\ h_initialized s1 = false /\ no_marks (h_mem s1) /\ aligned_writes c (h_mem s) (h_mem s1)).
-    { unfold hp_deallocall. rewrite Hfl. unfold hinv in Hi. destruct (ha_initialized sa) eqn:Ein.
+    { unfold hp_deallocall, hp_deallocall_p. rewrite deallocall_policy. cbn [andb]. rewrite Hfl. unfold hinv in Hi. destruct (ha_initialized sa) eqn:Ein.
       - specialize (Hrep eq_refl). pose proof Hi as [Hpos Htop Ht Hal Hb Hl].
         pose proof (MI_of_inv _ _ _ _ _ _ _ Hi Hrep) as HM. pose proof NODE_eq as HN. pose proof MIN_range.
         assert (Hfu : (length (ha_chunks sa) < heap_fuel c)%nat).
@@ -495,4 +500,31 @@ Proof.
   assert (He8 : heap_end c mod 8 = 0).
   { destruct (heap_geometry c Hc) as (_ & _ & G3 & _). Z.div_mod_to_equations. lia. }
   rewrite (crun_aligned c ops heap_init_state ha_init_state [] s live Hc (hinv_init c) (SR_init c) Hd He8 Hcr w Hw). reflexivity.
+Qed.
+
+
+(* ---------- the mark invariant depends on what deallocall does ----------
+   For either policy: "after any history, the state deallocall leaves behind carries no used mark"
+   holds exactly when deallocall clears the marks.  Under the other policy the end node of
+   HeapAllocator(200) keeps its mark (the stale-cookie defect repaired by 9ef0717). *)
+Theorem deallocall_clears_iff_policy_proof : forall pol : bool,
+  (forall c ops s live s', hcfg_ok c -> Forall hop_usize ops ->
+     crun c (heap_init_state, []) ops = Some (s, live) ->
+     hp_deallocall_p pol c s = HOk s' -> no_marks (h_mem s')) <-> pol = true.
+Proof.
+  intros pol. split.
+  - intros H. destruct pol; [reflexivity|]. exfalso.
+    pose (c := mkhcfg 8 200).
+    assert (Hc : hcfg_ok c) by (unfold hcfg_ok, c, two64; vm_compute; repeat split; intros Hx; discriminate Hx).
+    assert (Hd : Forall hop_usize [HAlloc 8]) by (constructor; [cbn; unfold usize, two64; lia | constructor]).
+    destruct (crun c (heap_init_state, []) [HAlloc 8]) as [[s live]|] eqn:E; [|vm_compute in E; discriminate E].
+    specialize (H c [HAlloc 8] s live _ Hc Hd E eq_refl).
+    vm_compute in E. inversion E; subst s live. clear E.
+    specialize (H 176 eq_refl). vm_compute in H. discriminate H.
+  - intros -> c ops s live s' Hc Hd Hcr Hda.
+    destruct (crun_sim c ops heap_init_state ha_init_state [] Hc (hinv_init c) (SR_init c) Hd) as (s0 & sa & l0 & H1 & H2 & Hi & Hsr).
+    rewrite Hcr in H1. inversion H1; subst s0 l0. clear H1.
+    destruct (cstep_sim c s sa live HDeallocAll Hc Hi Hsr I) as (s1 & sa1 & l1 & Hs1 & Ha1 & _ & (_ & _ & Hnm) & _).
+    cbn [cstep hstep] in Hs1, Ha1. unfold hp_deallocall in Hs1. rewrite deallocall_policy in Hs1. rewrite Hda in Hs1.
+    inversion Hs1; subst s1 l1. inversion Ha1; subst sa1. apply Hnm. reflexivity.
 Qed.
